@@ -59,6 +59,10 @@ CORPUS = [
 ]
 
 EXTRA_SEEDS = [
+    # redefinition / #undef / use of compiler-defined macros (seeded change C16-m2 freed the predefined macro on
+    # #define but kept its entry in the compiler-macro table: use after free on the next use or at clear())
+    "#define __LINE__ 7\n#undef __LINE__\nconst int a = __LINE__;\n#define OKL_VERSION 3\nconst int b = OKL_VERSION;\n#undef OKL_VERSION\n#define __OKL__ 2\n#if __OKL__\nconst int c = 1;\n#endif\n@kernel void k(const int N, int *x) {\n  for (int i = 0; i < N; ++i; @tile(4, @outer, @inner)) { x[i] = a + b + c + __COUNTER__; }\n}\n",
+    "#define not 1\n#define __FILE__ \"f\"\nconst char *f = __FILE__;\n#define __DATE__ 0\n#undef __DATE__\n#define __DATE__ 1\nconst int d = __DATE__;\n",
     # `continue` inside a `switch`: directly in an OKL loop (rejected since F61) and inside a sequential loop (valid);
     # validation must terminate on both (seeded change C16-m1 made the ancestor walk spin on the first)
     "@kernel void k(const int N, int *a) {\n  for (int o = 0; o < N; ++o; @outer) {\n    for (int i = 0; i < 4; ++i; @inner) {\n      switch (i) { case 0: continue; default: break; }\n      a[o * 4 + i] = i;\n    }\n  }\n}\n",
